@@ -64,9 +64,28 @@ fn uper(api: &Api, input: &str, out: &mut Out) {
         let incons = c["incons"].as_bool().unwrap();
         let mut problems: Vec<(String, String)> = Vec::new(); // (class, text)
         // ---- write
+        let mut api_variant: Option<String> = None;
         let wr = guarded(|| {
             let mut w = UperWriter::default();
-            (api.write)(ti, v, &mut w).map(|r| r.map(|_| (w.byte_content().to_vec(), w.bit_len())))
+            let r = (api.write)(ti, v, &mut w).map(|r| r.map(|_| (w.byte_content().to_vec(), w.bit_len())));
+            if let Some(Ok((bytes, len))) = &r {
+                // the other ways in and out of a writer: a reader on the writer itself, a pre-sized writer, the owned octets
+                match (api.read)(ti, &mut w.as_reader()) {
+                    Ok(x) if x == *v || !exp_ok => {}
+                    Ok(x) => api_variant = Some(format!("UperWriter::as_reader decodes {}", x)),
+                    Err(e) => api_variant = Some(format!("UperWriter::as_reader fails with {}", per_err_name(&e))),
+                }
+                let mut w2 = UperWriter::with_capacity(i as usize % 7);
+                let r2 = (api.write)(ti, v, &mut w2);
+                if !matches!(r2, Some(Ok(()))) || w2.bit_len() != *len || w2.byte_content() != &bytes[..] {
+                    api_variant = Some(format!("UperWriter::with_capacity({}) wrote {} bits: {}", i as usize % 7, w2.bit_len(), hex(w2.byte_content())));
+                }
+                let owned = w.into_bytes_vec();
+                if owned != *bytes {
+                    api_variant = Some(format!("UperWriter::into_bytes_vec gives {} for the content {}", hex(&owned), hex(bytes)));
+                }
+            }
+            r
         });
         let wr_unrep = matches!(wr, Ok(None));
         let written: Option<(Vec<u8>, usize)> = match wr {
@@ -119,6 +138,9 @@ fn uper(api: &Api, input: &str, out: &mut Out) {
                 }
                 // C01: decode the writer's own output, followed by a sentinel value in the same stream
                 if let Some(p) = read_with_sentinel(api, ti, v, bytes, *len) {
+                    problems.push(("roundtrip".into(), p));
+                }
+                if let Some(p) = api_variant.take() {
                     problems.push(("roundtrip".into(), p));
                 }
             }
@@ -487,6 +509,12 @@ fn proto(api: &Api, input: &str, out: &mut Out, kv: &Kv) {
             }
             let bytes = w.as_bytes().to_vec();
             produced = Some(bytes.clone());
+            // a reader on the writer itself sees the same message
+            match (api.pread)(ti, &mut w.as_reader()) {
+                Ok(x) if x == *v || proto_eq(&x, v) => {}
+                Ok(x) => return Err(("roundtrip".into(), format!("ProtobufWriter::as_reader reads back {} (bytes {})", x, hex(&bytes)))),
+                Err(e) => return Err(("read".into(), format!("ProtobufWriter::as_reader fails on {}: {:?}", hex(&bytes), e))),
+            }
             // the fixed-slice back end must produce identical bytes
             let mut buf = vec![0u8; bytes.len() + 16];
             let written = {
@@ -553,12 +581,14 @@ fn proto(api: &Api, input: &str, out: &mut Out, kv: &Kv) {
         };
         if let Some((class, why)) = problem {
             if !devname.is_empty() {
-                *stats.entry(format!("dev:{}", devname)).or_insert(0) += 1;
+                // (a line of its own, flushed: the summary of this process is lost if the watchdog ends it at a later case)
+                out.line(&json!({"devhit": devname, "line": i}));
+                out.flush();
                 continue;
             }
             *stats.entry(format!("bad:{}", class)).or_insert(0) += 1;
             out.line(&json!({"line": i, "class": class, "why": why, "case": c}));
-                out.flush(); // the watchdog may end the process at a later case: nothing found so far may be lost
+            out.flush(); // the watchdog may end the process at a later case: nothing found so far may be lost
         }
     }
     if let Some(e) = events.as_mut() {
